@@ -23,12 +23,12 @@ for d in sorted(x for x in glob.glob(os.path.join(ROOT, "seeded", "*")) if os.pa
     np = os.path.join(d, "NOTES.md")
     if os.path.exists(np):
         notes = open(np).read()
-    if name.startswith("S-") or name.startswith("S2-") or name.startswith("S3-") or name.startswith("S4-") or name.startswith("S5-") or name.startswith("S6-") or name.startswith("S7-") or name.startswith("S8-"):
+    if name.startswith("S-") or name.startswith("S2-") or name.startswith("S3-") or name.startswith("S4-") or name.startswith("S5-") or name.startswith("S6-") or name.startswith("S7-") or name.startswith("S8-") or name.startswith("S9-"):
         prop = name.split("-")[1]
         origin = "fresh sub-agent, given only the text of property %s and its own scratch worktree of /repo under /tmp (nothing from /verif)" % prop
         if name.startswith("S2-"):
             origin += "; second round: additionally told which changes the first round had produced for this property (titles only) and asked for different, subtler ones"
-        if name.startswith("S3-") or name.startswith("S4-") or name.startswith("S5-") or name.startswith("S6-") or name.startswith("S7-") or name.startswith("S8-"):
+        if name.startswith("S3-") or name.startswith("S4-") or name.startswith("S5-") or name.startswith("S6-") or name.startswith("S7-") or name.startswith("S8-") or name.startswith("S9-"):
             origin += "; third round: told the titles of the changes of rounds 1 and 2 for this property and asked for one that needs a specific multi-step or multi-site condition (two sites that each look fine alone, a second use of some state, a particular configuration or schedule)"
         confirmed = "tools/confirm_seed.sh in the agent's scratch worktree: demo passes on the unchanged tree; patch applies with git apply; go build ./... ok; baseline suite (go test -vet=off -count=1 ./cmd/... ./pkg/...) passes with the patch; demo fails with the patch"
     else:
